@@ -214,6 +214,14 @@ class Context:
                 (64, True): ">q",
             }
         fmt = mapping[(bits, signed)]
+        low = -(1 << (bits - 1)) if signed else 0
+        high = (1 << (bits - 1)) if signed else (1 << bits)
+        if not isinstance(v, int) or not (low <= v < high):
+            kind = "signed" if signed else "unsigned"
+            raise SemanticError(
+                f"Value {v} does not fit in a {kind} integer of {bits} bits",
+                None,
+            )
         return struct.pack(fmt, v)
 
     def pack_float(self, v, bits=None):
